@@ -1,0 +1,23 @@
+//go:build verif
+
+package extension
+
+// Contracts checked by /verif/gvc. Comment-only file (build tag verif).
+
+// calls(Name): number of calls named Name executed so far by the function under verification.
+// The heartbeat asks the Lambda runtime for the next event only after it has waited for a flush
+// notification since its previous request; one initial flush precedes the first request.
+//@ func (*manager).heartbeat
+//@   requires m != nil && m.fc != nil && m.log != nil
+//@   callsite nextEvent requires calls(Flush) == 1 && calls(WaitForFlush) == calls(nextEvent) + 1
+//@   callsite WaitForFlush requires calls(Flush) == 1 && calls(WaitForFlush) == calls(nextEvent)
+//@   loop 1 invariant calls(Flush) == 1 && calls(WaitForFlush) == calls(nextEvent) && m.fc != nil && m.log != nil
+//@   modifies everything
+//@   preserves extension.manager
+
+// The runtime API client: may do anything but does not reach into the manager.
+//@ func (*manager).nextEvent
+//@   trusted
+//@   ensures  result1 == nil ==> result0 != nil
+//@   modifies everything
+//@   preserves extension.manager
